@@ -63,4 +63,4 @@ MANIFEST = dict(
                "balance/closedness is conditional on the union-find invariant of AliasRelation (property C17's subject).",
     technique="Lean 4 proof (per-pass counting and closure lemmas) + pass-by-pass model/implementation correspondence + direct oracle",
 )
-READY = False
+READY = True
